@@ -154,6 +154,7 @@ type c10Case struct {
 	Names   []string `json:"names,omitempty"`
 	Permute bool     `json:"permute_entries,omitempty"`
 	// Variant: "" | "shared-targets" (several names link the same block) |
+	// "aliased-sizes" (the same, with a different Tsize per name) |
 	// "mixed-threshold" (2000 generated entries whose links alternate between
 	// 34-byte CIDv0 and 36-byte CIDv1, size estimate next to the auto-shard
 	// threshold)
@@ -174,6 +175,15 @@ func (c c10Case) entries(s *store.Store) []gen.DirEntry {
 		es := gen.Leaves(s, c.Names)
 		for i := range es {
 			es[i].Cid, es[i].Tsize = es[i%2].Cid, es[i%2].Tsize
+		}
+		return es
+	case "aliased-sizes":
+		// several names link the same block but record different sizes for it
+		// (Tsize is whatever the caller says): nothing may depend on which of
+		// them is met first
+		es := gen.Leaves(s, c.Names)
+		for i := range es {
+			es[i].Cid, es[i].Tsize = es[i%2].Cid, uint64(100+17*i)
 		}
 		return es
 	case "mixed-threshold":
@@ -340,6 +350,8 @@ func runC10(r *core.Run) {
 		names := gen.SubsetOf(u, mask)
 		cases = append(cases, c10Case{Kind: "sharded", Fanout: 8, Names: names, Permute: len(names) <= 4, Variant: "shared-targets"})
 		cases = append(cases, c10Case{Kind: "plain", Names: names, Permute: len(names) <= 4, Variant: "shared-targets"})
+		cases = append(cases, c10Case{Kind: "sharded", Fanout: 8, Names: names, Permute: len(names) <= 4, Variant: "aliased-sizes"})
+		cases = append(cases, c10Case{Kind: "plain", Names: names, Permute: len(names) <= 4, Variant: "aliased-sizes"})
 	}
 	cases = append(cases, c10Case{Kind: "plain", Permute: true, Variant: "mixed-threshold"}, c10Case{Kind: "quick", Variant: "mixed-threshold"})
 	// two names with the same 64-bit hash: whatever the builder answers (it has
